@@ -129,7 +129,7 @@ def run(tier):
             raise Machinery('vacuity: no result labelled %s was observed' % lab)
     return conclude(PROP, tier, viols, cov, t0, [
         "'nb' is erased from both inputs before the clauses are evaluated (statement: results do not depend on nb)",
-        'bx/gbx over N, NP is rejected only when both matched occurrences are the bare atoms (one bare, one with a feature: unspecified)',
+        'bx/gbx over N, NP: the composed-over category is the argument of the backward functor as given (after nb erasure); when only the forward functor states a bare N/NP the outcome is unspecified',
         'conj with an NP\\NP-shaped right conjunct: both outcomes justified, neither required',
         'punctuation = atom whose base does not start with a letter, or LRB RRB LQU RQU (decided by the harness on code points)',
     ])
